@@ -1,6 +1,6 @@
 /- Proofs/Info/SmfDecode.lean — SMF: `_var_int` on a variable-length quantity, `_read_track` on a well-formed event
-list (event by event), `_read_midi_length` on a well-formed file, and mutagen's parts against the specification's
-segments of constant tempo. -/
+list (event by event), `_read_midi_length` on a well-formed file, and the loop over the tempo map against the specification's
+stretches of constant tempo. -/
 import MutagenModel.Proofs.Info.Smf
 import MutagenModel.Spec.Info.Smf
 import MutagenModel.Proofs.IntCodec
@@ -66,10 +66,9 @@ theorem length_vlq_pos (n : Nat) : 1 ≤ (vlq n).length := by simp [vlq]
 def applyEvent (s : TrackState) (e : Event) : TrackState :=
   match e.body with
   | .midi status _ _ running =>
-    { s with off := s.off + e.render.length, deltasum := s.deltasum + e.delta, status := if running then s.status else status,
-             events := s.events ++ [⟨s.deltasum + e.delta, 1, e.delta⟩] }
+    { s with off := s.off + e.render.length, deltasum := s.deltasum + e.delta, status := if running then s.status else status }
   | .tempo us =>
-    { s with off := s.off + e.render.length, deltasum := s.deltasum + e.delta, tempos := s.tempos ++ [⟨s.deltasum + e.delta, 0, us⟩] }
+    { s with off := s.off + e.render.length, deltasum := s.deltasum + e.delta, tempos := s.tempos ++ [(s.deltasum + e.delta, us)] }
   | _ => { s with off := s.off + e.render.length, deltasum := s.deltasum + e.delta }
 
 theorem getD_mid (A B : Bytes) (x : UInt8) : (A ++ x :: B).getD A.length 0 = x := by
@@ -94,8 +93,8 @@ theorem trackStep_event (pre post : Bytes) (e : Event) (prev : Option Nat) (s : 
   have hchunk : pre ++ e.render ++ post = A ++ (e.body.render ++ post) := by rw [← hA]; simp [Event.render, List.append_assoc]
   rw [hchunk, ← hAl]
   have hstate : ∀ (x y : TrackState), x.off = y.off → x.deltasum = y.deltasum → x.status = y.status → x.tempos = y.tempos →
-      x.events = y.events → x = y := by
-    intro x y h1 h2 h3 h4 h5; cases x; cases y; simp_all
+      x = y := by
+    intro x y h1 h2 h3 h4; cases x; cases y; simp_all
   cases hb : e.body with
   | midi status d1 d2 running =>
     rw [hb] at hbody
@@ -268,36 +267,21 @@ theorem trackLoop_events : ∀ (evs : List Event) (pre : Bytes) (prev : Option N
         | metaEv t p => rw [hb] at hn; cases hn
         | tempo us => rw [hb] at hn; cases hn
 
-/-- the MIDI entries `(deltasum, MIDI, delta)` and the tempo entries `(deltasum, TEMPO, µs)` of a track from tick `t` on -/
-def midiList : List Event → Nat → List Ev
-  | [], _ => []
-  | e :: r, t =>
-    (match e.body with
-     | .midi _ _ _ _ => [⟨t + e.delta, 1, e.delta⟩]
-     | _ => []) ++ midiList r (t + e.delta)
-
-def tempoList : List Event → Nat → List Ev
-  | [], _ => []
-  | e :: r, t =>
-    (match e.body with
-     | .tempo us => [⟨t + e.delta, 0, us⟩]
-     | _ => []) ++ tempoList r (t + e.delta)
-
 theorem foldl_applyEvent (evs : List Event) : ∀ (s : TrackState),
-    (evs.foldl applyEvent s).events = s.events ++ midiList evs s.deltasum ∧
-    (evs.foldl applyEvent s).tempos = s.tempos ++ tempoList evs s.deltasum := by
+    (evs.foldl applyEvent s).deltasum = s.deltasum + endTick evs ∧
+    (evs.foldl applyEvent s).tempos = s.tempos ++ tempoMapGo evs s.deltasum := by
   induction evs with
-  | nil => intro s; simp [midiList, tempoList]
+  | nil => intro s; simp [endTick, tempoMapGo]
   | cons e r ih =>
     intro s
     simp only [List.foldl_cons]
     obtain ⟨i1, i2⟩ := ih (applyEvent s e)
     rw [i1, i2]
-    cases hb : e.body <;> simp [applyEvent, midiList, tempoList, hb]
+    cases hb : e.body <;> simp [applyEvent, tempoMapGo, endTick, hb] <;> omega
 
-/-- `_read_track` on the events of a well-formed track -/
+/-- `_read_track` on the events of a well-formed track: where it ends and its tempo changes -/
 theorem readTrack_events (evs : List Event) (hok : eventsOK none evs) :
-    readTrack (renderEvents evs) = .ok (midiList evs 0, tempoList evs 0) := by
+    readTrack (renderEvents evs) = .ok (endTick evs, tempoMap evs) := by
   unfold readTrack
   have := trackLoop_events evs [] none {} ((renderEvents evs).length + 1) rfl hok (fun st h => by cases h)
     (by have := length_renderEvents_ge evs; omega)
@@ -305,7 +289,7 @@ theorem readTrack_events (evs : List Event) (hok : eventsOK none evs) :
   rw [this]
   obtain ⟨h1, h2⟩ := foldl_applyEvent evs {}
   simp only [h1, h2]
-  rfl
+  simp [tempoMap]
 
 /-! ### chunks and the file -/
 
@@ -330,27 +314,31 @@ theorem readChunk_chunk (pre post ident data : Bytes) (hi : ident.length = 4) (h
   rw [h4]
   simp
 
-/-- what `_read_midi_length` makes of the tracks: per track `parts(sorted(events + tempos'))`, `tempos'` being the
-track's own tempo entries (format 0) or the first non-empty tempo list met so far (format 1) -/
-def firstOr (first : Option (List Ev)) (tempos : List Ev) : List Ev :=
-  match first with
-  | some l => if l.isEmpty then tempos else l
-  | none => tempos
+/-- the loop of the code is the specification's list of stretches of constant tempo -/
+theorem segsGo_eq (e : Nat) : ∀ (tm : List (Nat × Nat)) (last tempo : Nat), segsGo e tm last tempo = segmentsGo e tm last tempo := by
+  intro tm
+  induction tm with
+  | nil => intro last tempo; rfl
+  | cons a r ih => intro last tempo; obtain ⟨s, us⟩ := a; simp [segsGo, segmentsGo, ih]
 
-def mutagenTracks (format : Nat) : List (List Event) → Option (List Ev) → List (List (Nat × Nat))
-  | [], _ => []
-  | t :: r, first =>
-    parts (sortEvs (midiList t 0 ++ (if format = 1 then firstOr first (tempoList t 0) else tempoList t 0))) ::
-      mutagenTracks format r (some (firstOr first (tempoList t 0)))
+theorem segs_eq (e : Nat) (tm : List (Nat × Nat)) : segs e tm = segments e tm := segsGo_eq e tm 0 500000
 
-theorem tracksLoop_render (format : Nat) : ∀ (ts : List (List Event)) (pre post : Bytes) (first : Option (List Ev)),
-    (∀ t ∈ ts, eventsOK none t ∧ (renderEvents t).length < 2 ^ 32) →
-    tracksLoop (pre ++ renderTracks ts ++ post) format ts.length pre.length first = .ok (mutagenTracks format ts first) := by
+/-- the tempo map that governs the tracks of a format-1 file from here on: `tempo_map` if it is set already, else the
+tempo changes of the next track -/
+def govern (tm : Option (List (Nat × Nat))) (ts : List (List Event)) : List (Nat × Nat) :=
+  match tm with
+  | some g => g
+  | none => tempoMap (ts.headD [])
+
+theorem tracksLoop_render (format : Nat) : ∀ (ts : List (List Event)) (pre post : Bytes) (tm : Option (List (Nat × Nat))),
+    (∀ t ∈ ts, eventsOK none t ∧ (renderEvents t).length < 2 ^ 32) → (format ≠ 1 → tm = none) →
+    tracksLoop (pre ++ renderTracks ts ++ post) format ts.length pre.length tm =
+      .ok (ts.map fun t => segments (endTick t) (if format = 1 then govern tm ts else tempoMap t)) := by
   intro ts
   induction ts with
-  | nil => intro pre post first _; rfl
+  | nil => intro pre post tm _ _; rfl
   | cons t r ih =>
-    intro pre post first hok
+    intro pre post tm hok htm
     obtain ⟨hk1, hk2⟩ := hok t (by simp)
     have hfile : pre ++ renderTracks (t :: r) ++ post =
         pre ++ chunk [0x4D, 0x54, 0x72, 0x6B] (renderEvents t) ++ (renderTracks r ++ post) := by
@@ -362,12 +350,23 @@ theorem tracksLoop_render (format : Nat) : ∀ (ts : List (List Event)) (pre pos
         (pre ++ chunk [0x4D, 0x54, 0x72, 0x6B] (renderEvents t)) ++ renderTracks r ++ post := by simp [List.append_assoc]
     have hlen : pre.length + 8 + (renderEvents t).length = (pre ++ chunk [0x4D, 0x54, 0x72, 0x6B] (renderEvents t)).length := by
       simp [chunk, toBE]; omega
-    rw [hfile2, hlen, ih _ post _ (fun x hx => hok x (by simp [hx]))]
-    rfl
+    by_cases hf : format = 1
+    · subst hf
+      cases tm with
+      | none =>
+        simp only [↓reduceIte]
+        rw [hfile2, hlen, ih _ post (some (tempoMap t)) (fun x hx => hok x (by simp [hx])) (fun h => absurd rfl h)]
+        simp [segs_eq, govern]
+      | some g =>
+        simp only [↓reduceIte]
+        rw [hfile2, hlen, ih _ post (some g) (fun x hx => hok x (by simp [hx])) (fun h => absurd rfl h)]
+        simp [segs_eq, govern]
+    · simp only [hf, ↓reduceIte]
+      rw [hfile2, hlen, ih _ post _ (fun x hx => hok x (by simp [hx])) (fun _ => htm hf)]
+      simp [segs_eq, hf]
 
-/-- `_read_midi_length` on a well-formed file (format 0 / 1, ticks per quarter): the division and mutagen's parts -/
-theorem parse_build (f : File) (ok : f.OK) :
-    parse f.build = .ok { tickdiv := f.division, tracks := mutagenTracks f.format f.tracks none } := by
+/-- `_read_midi_length` on EVERY well-formed file (format 0 / 1, ticks per quarter): what the file encodes -/
+theorem parse_build (f : File) (ok : f.OK) : parse f.build = .ok f.expected := by
   obtain ⟨hfmt, hn16, hd1, hd15, htr⟩ := ok
   have hf1 : f.format ≤ 1 := by rcases hfmt with ⟨h, _⟩ | ⟨h, _⟩ <;> omega
   have hne : f.tracks ≠ [] := by
@@ -392,230 +391,15 @@ theorem parse_build (f : File) (ok : f.OK) :
   rw [if_neg (by omega), if_neg (by simp; omega), if_neg (by omega)]
   have hpos : 0 + 8 + 6 = ([] ++ chunk [0x4D, 0x54, 0x68, 0x64] hd).length := by
     simp [chunk, toBE, hl6]
-  have := tracksLoop_render f.format f.tracks ([] ++ chunk [0x4D, 0x54, 0x68, 0x64] hd) [] none htr
+  have := tracksLoop_render f.format f.tracks ([] ++ chunk [0x4D, 0x54, 0x68, 0x64] hd) [] none htr (fun _ => rfl)
   rw [List.append_nil] at this
   rw [hpos, this]
   simp only
-  have : (mutagenTracks f.format f.tracks none).isEmpty = false := by
+  have hemp : (f.tracks.map fun t => segments (endTick t) (if f.format = 1 then govern none f.tracks else tempoMap t)).isEmpty = false := by
     cases hts : f.tracks with
     | nil => exact absurd hts hne
-    | cons t r => simp [mutagenTracks]
-  rw [this]
-  simp
-
-/-! ### mutagen's parts against the specification's segments -/
-
-def toEv (p : Nat × Nat) : Ev := ⟨p.1, 0, p.2⟩
-
-theorem tempoList_map (t : List Event) : ∀ tick, tempoList t tick = (tempoMapGo t tick).map toEv := by
-  induction t with
-  | nil => intro tick; rfl
-  | cons e r ih =>
-    intro tick
-    cases hb : e.body <;> simp [tempoList, tempoMapGo, hb, ih, toEv]
-
-theorem midiList_type (t : List Event) : ∀ tick, ∀ x ∈ midiList t tick, x.type = 1 := by
-  induction t with
-  | nil => intro tick x hx; simp [midiList] at hx
-  | cons e r ih =>
-    intro tick x hx
-    simp only [midiList, List.mem_append] at hx
-    rcases hx with hx | hx
-    · cases hb : e.body <;> rw [hb] at hx <;> simp at hx
-      rw [hx]
-    · exact ih _ x hx
-
-def dataSum (l : List Ev) : Nat := (l.map (·.data)).sum
-
-theorem midiList_sum (t : List Event) (h : ∀ e ∈ t, e.body.isMidi = false → e.delta = 0) : ∀ tick,
-    dataSum (midiList t tick) = endTick t := by
-  induction t with
-  | nil => intro tick; rfl
-  | cons e r ih =>
-    intro tick
-    have ihr := ih (fun x hx => h x (by simp [hx])) (tick + e.delta)
-    have he := h e (by simp)
-    simp only [midiList, dataSum, List.map_append, List.sum_append, endTick, List.map_cons, List.sum_cons] at ihr ⊢
-    cases hb : e.body with
-    | midi st d1 d2 run => simp [dataSum] at ihr ⊢; rw [ihr]
-    | sysex l p => rw [hb] at he; simp [Body.isMidi] at he; simp [he] at ihr ⊢; exact ihr
-    | metaEv ty p => rw [hb] at he; simp [Body.isMidi] at he; simp [he] at ihr ⊢; exact ihr
-    | tempo us => rw [hb] at he; simp [Body.isMidi] at he; simp [he] at ihr ⊢; exact ihr
-
-theorem insertEv_props (a : Ev) (l : List Ev) :
-    dataSum (insertEv a l) = a.data + dataSum l ∧ (∀ x ∈ insertEv a l, x = a ∨ x ∈ l) := by
-  induction l with
-  | nil => simp [insertEv, dataSum]
-  | cons b r ih =>
-    simp only [insertEv]
-    split
-    · simp [dataSum]
-    · obtain ⟨i1, i2⟩ := ih
-      refine ⟨by simp [dataSum] at i1 ⊢; omega, ?_⟩
-      intro x hx
-      rcases List.mem_cons.mp hx with rfl | hx
-      · right; simp
-      · rcases i2 x hx with h | h
-        · left; exact h
-        · right; simp [h]
-
-theorem sortEvs_props (l : List Ev) : dataSum (sortEvs l) = dataSum l ∧ (∀ x ∈ sortEvs l, x ∈ l) := by
-  induction l with
-  | nil => simp [sortEvs]
-  | cons a r ih =>
-    obtain ⟨i1, i2⟩ := ih
-    obtain ⟨j1, j2⟩ := insertEv_props a (sortEvs r)
-    simp only [sortEvs]
-    refine ⟨by rw [j1, i1]; simp [dataSum], ?_⟩
-    intro x hx
-    rcases j2 x hx with h | h
-    · simp [h]
-    · simp [i2 x h]
-
-theorem insertEv_after (m : Ev) (tm : List Ev) (l : List Ev) (h : ∀ t ∈ tm, m.le t = false) :
-    insertEv m (tm ++ l) = tm ++ insertEv m l := by
-  induction tm with
-  | nil => rfl
-  | cons t r ih =>
-    simp only [List.cons_append, insertEv, h t (by simp), Bool.false_eq_true, ↓reduceIte]
-    rw [ih (fun x hx => h x (by simp [hx]))]
-
-/-- tempo entries at tick 0 in ascending order stay in front, in their order -/
-theorem sortEvs_tempos (tm : List (Nat × Nat)) (h0 : ∀ p ∈ tm, p.1 = 0) (hs : (tm.map (·.2)).Pairwise (· ≤ ·)) :
-    sortEvs (tm.map toEv) = tm.map toEv := by
-  induction tm with
-  | nil => rfl
-  | cons a r ih =>
-    simp only [List.map_cons, List.pairwise_cons] at hs
-    simp only [List.map_cons, sortEvs]
-    rw [ih (fun p hp => h0 p (by simp [hp])) hs.2]
-    cases r with
-    | nil => rfl
-    | cons b r' =>
-      simp only [List.map_cons, insertEv]
-      have hb0 := h0 b (by simp)
-      have ha0 := h0 a (by simp)
-      have hle := hs.1 b.2 (by simp)
-      have : (toEv a).le (toEv b) = true := by
-        simp [Ev.le, toEv, ha0, hb0, hle]
-      simp [this]
-
-theorem sortEvs_merge (M : List Ev) (tm : List (Nat × Nat)) (hM : ∀ x ∈ M, x.type = 1) (h0 : ∀ p ∈ tm, p.1 = 0)
-    (hs : (tm.map (·.2)).Pairwise (· ≤ ·)) : sortEvs (M ++ tm.map toEv) = tm.map toEv ++ sortEvs M := by
-  induction M with
-  | nil => simp [sortEvs, sortEvs_tempos tm h0 hs]
-  | cons m r ih =>
-    simp only [List.cons_append, sortEvs]
-    rw [ih (fun x hx => hM x (by simp [hx]))]
-    apply insertEv_after
-    intro t ht
-    obtain ⟨p, hp, rfl⟩ := List.mem_map.mp ht
-    have := hM m (by simp)
-    simp [Ev.le, toEv, h0 p hp, this]
-
-theorem partsGo_midi (S : List Ev) (hS : ∀ x ∈ S, x.type = 1) : ∀ tempo d, partsGo S tempo d = [(d + dataSum S, tempo)] := by
-  induction S with
-  | nil => intro tempo d; simp [partsGo, dataSum]
-  | cons a r ih =>
-    intro tempo d
-    have := hS a (by simp)
-    simp only [partsGo, this, Nat.one_ne_zero, ↓reduceIte]
-    rw [ih (fun x hx => hS x (by simp [hx]))]
-    simp [dataSum]; omega
-
-theorem partsGo_segments (E : Nat) (S : List Ev) (hS : ∀ x ∈ S, x.type = 1) (hE : dataSum S = E) :
-    ∀ (tm : List (Nat × Nat)) (tempo : Nat), (∀ p ∈ tm, p.1 = 0) →
-      partsGo (tm.map toEv ++ S) tempo 0 = segmentsGo E tm 0 tempo := by
-  intro tm
-  induction tm with
-  | nil => intro tempo _; simp [segmentsGo, partsGo_midi S hS, hE]
-  | cons a r ih =>
-    intro tempo h0
-    obtain ⟨s, us⟩ := a
-    have hs : s = 0 := h0 (s, us) (by simp)
-    subst hs
-    simp only [List.map_cons, List.cons_append, partsGo, toEv, ↓reduceIte, segmentsGo, Nat.zero_min, Nat.sub_self]
-    rw [← ih us (fun p hp => h0 p (by simp [hp]))]
-
-/-- one track with the tempo list `g` that governs it -/
-theorem track_parts (t : List Event) (g : List (Nat × Nat)) (h1 : ∀ e ∈ t, e.body.isMidi = false → e.delta = 0)
-    (h0 : ∀ p ∈ g, p.1 = 0) (hs : (g.map (·.2)).Pairwise (· ≤ ·)) :
-    parts (sortEvs (midiList t 0 ++ g.map toEv)) = segments (endTick t) g := by
-  rw [sortEvs_merge _ g (midiList_type t 0) h0 hs]
-  unfold parts segments
-  obtain ⟨p1, p2⟩ := sortEvs_props (midiList t 0)
-  exact partsGo_segments (endTick t) _ (fun x hx => midiList_type t 0 x (p2 x hx)) (by rw [p1, midiList_sum t h1 0]) g 500000 h0
-
-/-- all tracks: the first tempo list governs in format 1 -/
-theorem mutagenTracks_aligned (format : Nat) (g : List (Nat × Nat)) (h0 : ∀ p ∈ g, p.1 = 0) (hs : (g.map (·.2)).Pairwise (· ≤ ·)) :
-    ∀ (ts : List (List Event)) (first : Option (List Ev)),
-    (∀ t ∈ ts, ∀ e ∈ t, e.body.isMidi = false → e.delta = 0) →
-    (format = 1 → g = [] → ∀ t ∈ ts, tempoMap t = []) →
-    (format ≠ 1 → ∀ t ∈ ts, tempoMap t = g) →
-    (first = some (g.map toEv) ∨ (first = none ∧ ∀ t, ts.head? = some t → tempoMap t = g)) →
-    mutagenTracks format ts first = ts.map fun t => segments (endTick t) g := by
-  intro ts
-  induction ts with
-  | nil => intro first _ _ _ _; rfl
-  | cons t r ih =>
-    intro first h1 h4 h5 hfirst
-    have htl : tempoList t 0 = (tempoMap t).map toEv := tempoList_map t 0
-    simp only [mutagenTracks, List.map_cons]
-    -- the list that governs this track
-    have hfirst' : format = 1 → firstOr first (tempoList t 0) = g.map toEv := by
-      intro hf
-      rcases hfirst with h | ⟨h, hh⟩
-      · subst h
-        unfold firstOr
-        cases g with
-        | nil => simp [htl, h4 hf rfl t (by simp)]
-        | cons a b => simp
-      · subst h
-        unfold firstOr
-        rw [htl, hh t rfl]
-    have hgov : (if format = 1 then firstOr first (tempoList t 0) else tempoList t 0) = g.map toEv := by
-      by_cases hf : format = 1
-      · simp [hf, hfirst' hf]
-      · simp [hf, htl, h5 hf t (by simp)]
-    rw [hgov, track_parts t g (h1 t (by simp)) h0 hs]
-    congr 1
-    apply ih _ (fun x hx => h1 x (by simp [hx])) (fun a b x hx => h4 a b x (by simp [hx])) (fun a x hx => h5 a x (by simp [hx]))
-    left
-    by_cases hf : format = 1
-    · rw [hfirst' hf]
-    · -- format 0: what is kept as `first_tempos` is never used; it is this track's list all the same
-      rcases hfirst with h | ⟨h, hh⟩
-      · subst h
-        unfold firstOr
-        cases g with
-        | nil => simp [htl, h5 hf t (by simp)]
-        | cons a b => simp
-      · subst h
-        unfold firstOr
-        rw [htl, h5 hf t (by simp)]
-
-/-- mutagen's parts are the specification's segments on aligned files -/
-theorem parse_aligned (f : File) (ok : f.OK) (al : f.Aligned) : parse f.build = .ok f.expected := by
-  rw [parse_build f ok]
-  obtain ⟨hfmt, _, _, _, _⟩ := ok
-  obtain ⟨a1, a2, a3, a4⟩ := al
-  unfold File.expected
-  congr 2
-  have hgen := mutagenTracks_aligned f.format (tempoMap (f.tracks.headD [])) a2 a3 f.tracks none a1 a4
-  rcases hfmt with ⟨hf0, hl1⟩ | ⟨hf1, hl⟩
-  · -- format 0: one track, its own tempo map
-    match hts : f.tracks, hl1 with
-    | [t], _ =>
-      rw [hts] at hgen
-      have := hgen (fun _ x hx => by simp at hx; subst hx; rfl) (.inr ⟨rfl, fun x hx => by simp at hx; subst hx; rfl⟩)
-      rw [this]
-      simp [File.tempoMapFor, hf0, hts]
-  · have := hgen (fun h => absurd hf1 h) (.inr ⟨rfl, fun x hx => by
-      cases hts : f.tracks with
-      | nil => rw [hts] at hx; simp at hx
-      | cons a b => rw [hts] at hx; simp at hx; subst hx; rfl⟩)
-    rw [this]
-    simp [File.tempoMapFor, hf1]
-
+    | cons t r => simp
+  rw [hemp]
+  simp only [Bool.false_eq_true, ↓reduceIte, File.expected, File.tempoMapFor, govern]
 
 end Mutagen.Info.Smf
